@@ -42,6 +42,19 @@ class Monitor:
     def finish(self, run): ...
 
 
+def _call_site():
+    """First pynguin frame (outside utils/randomness.py) below an RNG draw, plus its caller."""
+    f = sys._getframe(2)
+    while f is not None:
+        fn = f.f_code.co_filename
+        if "/pynguin/" in fn and not fn.endswith("utils/randomness.py"):
+            g = f.f_back
+            return (f"{os.path.basename(fn)}:{f.f_code.co_name}:{f.f_lineno}",
+                    f"{os.path.basename(g.f_code.co_filename)}:{g.f_code.co_name}:{g.f_lineno}" if g else "")
+        f = f.f_back
+    return ("?", "")
+
+
 def make_sim_random(base_cls, run):
     class SimRandom(base_cls):
         def random(self):
@@ -57,9 +70,8 @@ def make_sim_random(base_cls, run):
                     v = run.fault_rng.choice([0.0, 1.0 - 2.0 ** -53, 0.5, 2.0 ** -53])
                     run.buggified += 1
             if run.draw_log is not None:
-                f = sys._getframe(1)
-                g = f.f_back
-                run.draw_log.append((f.f_code.co_name, f.f_lineno, g.f_code.co_name if g else "", repr(v)))
+                site, caller = _call_site()
+                run.draw_log.append((site, caller, "random", repr(v)))
             run.draw_hash.update(repr(v).encode())
             return v
 
@@ -68,11 +80,8 @@ def make_sim_random(base_cls, run):
             run.clock.ns += run.draw_cost_ns
             v = super().getrandbits(k)
             if run.draw_log is not None:
-                f = sys._getframe(1)
-                g = f.f_back
-                h = g.f_back if g else None
-                run.draw_log.append((g.f_code.co_name if g else "", g.f_lineno if g else 0,
-                                     h.f_code.co_name if h else "", f"{k}:{v}"))
+                site, caller = _call_site()
+                run.draw_log.append((site, caller, "bits", f"{k}:{v}"))
             run.draw_hash.update(f"{k}:{v}".encode())
             return v
 
@@ -84,7 +93,7 @@ class PipelineRun:
         self.case = case
         self.monitors = monitors
         self.violation = None
-        self.hist = History(keep=200)
+        self.hist = History(keep=10**7 if case.get('return_hist') else 200)
         self.clock = SimClock()
         self.clock.tick_on_read_ns = 0  # reads must not move time: lazily initialised code reads the clock a different number of times per process
         self.draw_cost_ns = case.get("draw_cost_ns", 200_000)
@@ -96,6 +105,7 @@ class PipelineRun:
         self.buggify_sites: set[str] = set()
         self.buggify_max_sites = 3
         self.buggified = 0
+        self.exec_log = [] if case.get("log_execs") else None
         self.timeout_p = case.get("timeout_p", 0.0)
         self.injected_timeouts = 0
         self.executions = 0
@@ -137,7 +147,7 @@ class PipelineRun:
 
         c = self.case
         kn = c.get("knobs", {})
-        self.out_dir = tempfile.mkdtemp(prefix="verif-e1-", dir="/dev/shm")
+        self.out_dir = tempfile.mkdtemp(prefix="verif-e1-")
         sections = {
             "stopping": {"maximum_iterations": kn.get("iterations", 3),
                          "maximum_test_executions": kn.get("max_executions", -1),
@@ -220,6 +230,8 @@ class PipelineRun:
             return "sut" if (fn == "<ast>" or fn == "<stmt>" or fn.startswith(sut_dir)) else None
 
         sch.classify = classify
+        if self.case.get("log_lines"):
+            sch.line_log = []
         self.sched = sch
         shim = ThreadingShim()
         ex.threading = shim
@@ -235,16 +247,30 @@ class PipelineRun:
 
         def execute(self_ex, test_case):
             run.executions += 1
+            code = test_case.to_code()
+            run.hist.add("exec", run.executions, hashlib.sha256(code.encode()).hexdigest()[:12])
+            if run.exec_log is not None:
+                run.exec_log.append(code)
+            res = None
             if run.timeout_p and self_ex is run.executor:
-                h = int(hashlib.sha256(test_case.to_code().encode()).hexdigest()[:8], 16) / 0xFFFFFFFF
+                h = int(hashlib.sha256(code.encode()).hexdigest()[:8], 16) / 0xFFFFFFFF
                 if h < run.timeout_p:
                     run.injected_timeouts += 1
                     self_ex._executed_test_cases += 1
                     self_ex._before_remote_test_case_execution(test_case)
                     res = ExecutionResult(timeout=True)
                     self_ex._after_remote_test_case_execution(test_case, res)
-                    return res
-            return orig_execute(self_ex, test_case)
+            if res is None:
+                res = orig_execute(self_ex, test_case)
+            tr = res.execution_trace
+            if res.timeout:
+                run.probe("timeouts_seen")
+            sig = (res.timeout, sorted((k, type(v).__name__) for k, v in res.exceptions.items()),
+                   sorted(tr.covered_line_ids), sorted(tr.executed_code_objects),
+                   sorted(tr.executed_predicates.items()), sorted(tr.true_distances.items()),
+                   sorted(tr.false_distances.items()))
+            run.hist.add("res", run.executions, hashlib.sha256(repr(sig).encode()).hexdigest()[:12])
+            return res
 
         patch(ex.TestCaseExecutor, "execute", execute)
 
